@@ -282,7 +282,7 @@ def neg(env):
     return {k: -v for k, v in env.items()}
 
 
-def check_comparator(chk, prog, f, li, ri, rule, equals=False, want_total=True):
+def check_comparator(chk, prog, f, li, ri, rule, equals=False, want_total=True, lookup=True):
     """evaluate one comparator; emits ok/violation/note on chk.  returns True if decided"""
     C = Comparator(prog, f, li, ri)
     C.is_bool = equals
@@ -323,9 +323,15 @@ def check_comparator(chk, prog, f, li, ri, rule, equals=False, want_total=True):
     if zero in single:
         r0 = single[zero]
         if (equals and r0 is not True) or (not equals and r0 != 0):
-            bad.append((f, "R1: equal keys do not compare equal (all parts equal gives %s)" % r0))
+            if lookup:
+                bad.append((f, "R1: equal keys do not compare equal (all parts equal gives %s)" % r0))
+            else:
+                # a sort comparator that never answers 'equal' (unique tie-break key): legitimate for sorting
+                chk.note("%s %s: never answers 'equal' (all parts equal gives %s): fine for sorting distinct elements" % (rule, f.name, r0))
     for v, r in single.items():
         nv = tuple(-x for x in v)
+        if not lookup and nv == v:
+            continue
         if nv in single:
             rr = single[nv]
             if (equals and rr != r) or (not equals and rr != -r):
